@@ -157,6 +157,16 @@ PROPS["C14"] = {
     "exhaustive_quick": True, "exhaustive_thorough": True,
 }
 
+PROPS["C15"] = {
+    "test": "TestC15", "level": "fault_enumeration", "registered": True, "engine": "sim",
+    "shards_quick": 8, "shards_thorough": 16, "timeout": 900,
+    "technique": "fault enumeration at every point of the target connection in virtual time; raw client parser as well-formedness oracle; exact virtual instants for 502/504",
+    "level_text": "Sequences of 1-6 faults on one service - dial refused, close at once, close inside the status line, garbage, close inside the header block (each immediately or after a delay), silence, header block stalled past the target timeout, answer 300ms before / 300ms after / within one step of the timeout, and after the header block: short Content-Length body, close inside a chunk, close between chunks - with a healthy request after each, in all four buffering combinations and with no / 502-only / 504-only / both custom pages. Oracle: for early faults a syntactically complete response (raw parser, declared length = actual) with 502 at the failure instant or 504 at exactly sent+target-timeout, rendered from the right page; for late faults the client's parse must fail (never complete-looking); afterwards the service answers, a pause with a 30s drain returns in 0 virtual time, and the bubble drains.",
+    "level_note": "Trusted: raw parser; eps=100ms; answers within 200ms of the timeout are ties (status 200 or 504 accepted). Mid-body stalls are not bounded by any configured timeout and are not generated. TCP RST is not reproducible on the in-memory network.",
+    "rule": "a class is (fault kind, delayed?, buffering combination, custom pages variant)",
+    "assumptions": ["go1.26.8 net/http transport error mapping (production go1.24.2)"],
+}
+
 ENGINES = [
     {"name": "sim", "path": "/verif/harness (world_test.go)", "kind_free_text": "real internal/server code in a testing/synctest bubble (virtual time) on an in-memory network with scripted fake targets and hook-placed delays; monitors judge recorded events", "serves_properties": []},
 ]
